@@ -1,3 +1,39 @@
+(* entry of property C01: the shared cycle entry (selectors 1, 101-103) plus
+     2    pure readiness: a job with its tasks -> JobReady / JobPipelined / JobStarving / JobValid
+     104  law: along the model's replay of the real cycle's choices, every attempt of an action
+          list with at most one `allocate` satisfies the guard of bind_only_when_gang_ok *)
+From stdpp Require Import gmap.
 From Coq Require Import ZArith List.
-From V Require Import Sched.CycleEntry.
-Definition entry := cycle_entry.
+From V Require Import Base.Codec Base.Res Sched.LedgerModel Sched.StmtModel Sched.LedgerCodec Sched.GangModel
+                      Sched.CycleModel Sched.CycleCodec Sched.CycleEntry Sched.GangValid Sched.GangLemmasMain.
+Import ListNotations.
+Open Scope Z_scope.
+
+Definition dReadyIn : dec (Z * job_spec * list task_spec) :=
+  let* e := dZ in let* j := dJobSpec in let* ts := dList dTaskSpec in ret (e, j, ts).
+
+Definition ready_entry (toks : list Z) : list Z :=
+  match run_dec dReadyIn toks with
+  | Some (e, j, ts) =>
+    let s := build e [] [j] ts in
+    match jobs s !! js_id j with
+    | Some jb =>
+      eBool (gang_job_ready (heap s) jb) ++ eBool (gang_job_pipelined (heap s) jb) ++
+      eBool (gang_job_starving jb) ++ [gang_job_valid (heap s) jb]
+    | None => bad_input
+    end
+  | None => bad_input
+  end.
+
+Definition count_allocate (acts : list Z) : nat := length (filter (fun a => a =? 1) acts).
+
+Definition law_guard (c : cycle_case) : bool :=
+  if (1 <? Z.of_nat (count_allocate (cc_actions c))) then true
+  else guardedb (cc_eps c) (world_of c) (cc_cops c).
+
+Definition entry (sel : Z) (toks : list Z) : list Z :=
+  match sel with
+  | 2 => ready_entry toks
+  | 104 => match run_dec dLawIn toks with Some (c, _, _) => eBool (law_guard c) | None => bad_input end
+  | _ => cycle_entry sel toks
+  end.
